@@ -13,7 +13,7 @@ def run(run, tier, seed):
                 ">=1 valid window. non-trivial = every executed case; distinct by (samples, weed set, k, rc)")
     run.assumptions = ["sample names are passed through a file list (name<TAB>file)", "ska nk --full-info exposes the whole table"]
     tc.design_and_replay(run, tier, seed, lambda r: any(h["op"]["do"] == "weed" and h["op"]["weed"] for h in r["hist"]), "c13",
-                         60 if tier == "quick" else 1200)
+                         60 if tier == "quick" else 1200, focus="weed")
     rng = random.Random(seed + 7)
     sb = skacli.Sandbox("c13")
     try:
